@@ -296,7 +296,7 @@ def main():
             rec.error(traceback.format_exc(limit=4))
         rec.write(args.out)
         return
-    n = 500 if args.tier == "quick" else 5000
+    n = 1500 if args.tier == "quick" else 15000
     rng = rng_of(args.seed, 18)
     for t in range(n):
         try:
